@@ -72,7 +72,8 @@ def s_tmats(draw, hyp, n, shape, complex_=False, plain=False):
     # of the identity that is not the identity (one step of a slow zoom)
     special = "" if plain else \
         draw(st.sampled_from(["", "", "", "", "", "rounded" if hyp else "near-identity",
-                              "near-identity" if not complex_ else ""]))
+                              "near-identity" if not complex_ else "",
+                              "" if hyp else "scaled"]))
     for _ in range(cnt):
         if special == "near-identity":
             d = [draw(st.sampled_from([5e-6, -5e-6, 2e-6, 8e-6])) for _ in range(n + 1)]
@@ -85,7 +86,13 @@ def s_tmats(draw, hyp, n, shape, complex_=False, plain=False):
                 M = np.round(M, 4)
             mats.append(M.tolist())
         else:
-            mats.append(draw(objs.s_matrix(n + 1, complex_)))
+            m = draw(objs.s_matrix(n + 1, complex_))
+            if special == "scaled" and not complex_:
+                # a projective transformation is its matrix up to a scalar: the same map in
+                # other units (determinant 1e-12 .. 1e+15, perfectly conditioned)
+                k = draw(st.sampled_from([1e-4, 1e3, -2e-3, 5e4]))
+                m = (np.array(m, dtype=float) * k).tolist()
+            mats.append(m)
     return dict(cols=mats, comp=comp, col=draw(st.booleans()), special=special)
 
 
